@@ -74,7 +74,7 @@ mod verif_kani {
         kani::cover!(number_like);
     }
 
-    //@harness props=C13,C14,C12 kind=proof fns=needs_escaping
+    //@harness props=C13,C14,C02,C12 kind=proof fns=needs_escaping
     //@ desc="for ALL 256 bytes: backslash, newline, carriage return, every control byte 0x00-0x1F, 0x7F and every byte >= 0x80 are reported as needing an escape in a quoted literal"
     #[kani::proof_for_contract(needs_escaping)]
     fn vk_utils_needs_escaping_contract() {
@@ -85,7 +85,7 @@ mod verif_kani {
         kani::cover!(!r);
     }
 
-    //@harness props=C13,C14,C12 kind=proof fns=needs_quoted_string
+    //@harness props=C13,C14,C02,C12 kind=proof fns=needs_quoted_string
     //@ desc="for ALL 256 bytes: a byte that cannot be written raw inside a long bracket (carriage return - normalised by the lexer -, control bytes other than newline, 0x7F, bytes >= 0x80) forces the quoted form"
     #[kani::proof]
     fn vk_utils_needs_quoted_string() {
@@ -107,7 +107,7 @@ mod verif_kani {
         false
     }
 
-    //@harness props=C13,C14,C12 kind=bounded fns=get_quote_symbol bound="byte strings of length <= 4 over all 256 byte values"
+    //@harness props=C13,C14,C02,C12 kind=bounded fns=get_quote_symbol bound="byte strings of length <= 4 over all 256 byte values"
     //@ desc="get_quote_symbol(v) is ' or \"; when exactly one kind of quote occurs in v the other kind is chosen (so the common case needs no escape)"
     #[kani::proof]
     #[kani::unwind(7)]
